@@ -212,32 +212,8 @@ fn run_cfg(cfg: &Cfg, hang_ms: u64) -> (Vec<Problem>, Value) {
             // rescue (a no-op dispatch spawns a worker that drains the blocked senders) and calm the send window
             sess.calm_send.store(true, Ordering::Relaxed);
             let before = pr;
-            let t0 = Instant::now();
-            let mut helpers: Vec<std::thread::JoinHandle<()>> = vec![];
-            let mut last_spawn = Instant::now();
-            loop {
-                if progress(&sess.lock()) > before && helpers.iter().all(|h| h.is_finished()) {
-                    break;
-                }
-                if t0.elapsed() > Duration::from_millis(hang_ms + 5000) {
-                    abandoned = true;
-                    break;
-                }
-                if helpers.len() < 8 && (helpers.is_empty() || last_spawn.elapsed() > Duration::from_millis(300)) {
-                    let (s2, p2) = (sess.clone(), pool.clone());
-                    helpers.push(std::thread::spawn(move || {
-                        ctl::bind_dispatcher(&s2);
-                        let t0 = Instant::now();
-                        while t0.elapsed() < Duration::from_secs(5) {
-                            if p2.dispatch(|| {}).is_ok() {
-                                return;
-                            }
-                            std::thread::yield_now();
-                        }
-                    }));
-                    last_spawn = Instant::now();
-                }
-                std::thread::sleep(Duration::from_millis(3));
+            if !oracle::rescue(&sess, &pool, |g| progress(g) > before, hang_ms + 5000) {
+                abandoned = true;
             }
             if abandoned || hangs >= 3 {
                 abandoned = true;
@@ -253,7 +229,7 @@ fn run_cfg(cfg: &Cfg, hang_ms: u64) -> (Vec<Problem>, Value) {
         }
         // everything accepted must have run
         sess.wait_until(hang_ms, |g| (0..total).all(|j| g.ended[j]));
-        let retired = sess.wait_until(8000 + 3 * cfg.timeout_ms, |g| g.roles.iter().filter(|r| r.kind == Kind::W).all(|r| r.exited));
+        let retired = sess.wait_until(8000 + 3 * cfg.timeout_ms, ctl::all_workers_retired);
         if !retired {
             problems.push(Problem {
                 ty: "hang",
@@ -286,16 +262,40 @@ fn run_cfg(cfg: &Cfg, hang_ms: u64) -> (Vec<Problem>, Value) {
                     g.log[mark..].iter().find_map(|e| if let Ev::Hook { site: "pool.d.load", b, .. } = e { Some(*b) } else { None }),
                 )
             };
-            if !back || ret != Some(Ret::Accepted) {
-                problems.push(Problem {
-                    ty: if back { "contract" } else { "hang" },
-                    sig: json!({"site": "pool", "kind": "no-respawn-after-all-workers-retired"}),
-                    desc: format!("stress {}: after every worker thread had ended a new dispatch was not accepted: returned {:?}, counter read at the limit test {:?}", cfg.name, ret, load_b),
-                });
+            let mut back = back;
+            if !back {
+                // the probe dispatch itself hangs (with a recv_timeout of a few ms the worker it spawns can retire
+                // before the blocking send): classify it like any other dispatch, then rescue
+                let d = {
+                    let g = sess.lock();
+                    g.log[mark..].iter().find_map(|e| if let Ev::Call { d, job } = e { (*job == probe).then_some(*d) } else { None })
+                };
+                if let Some(d) = d {
+                    let g = sess.lock();
+                    let names: Vec<String> = g.roles.iter().map(|r| r.name.clone()).collect();
+                    let hc = oracle::hang_class(&g, d);
+                    let tail: Vec<String> = g.log.iter().rev().take(14).rev().map(|e| ctl::render(e, &names)).collect();
+                    problems.push(Problem {
+                        ty: "hang",
+                        sig: json!({"site": "pool", "kind": "dispatch-hang", "where": hc.place, "interleaving": hc.interleaving}),
+                        desc: format!(
+                            "stress {}: the probe dispatch after all workers retired made no progress for {} ms: thread is in {}, {} worker threads alive; last events: {:?}",
+                            cfg.name, hang_ms, hc.place, hc.live_workers, tail
+                        ),
+                    });
+                }
+                back = oracle::rescue(&sess, &pool, |g| g.log[mark..].iter().any(|e| matches!(e, Ev::Ret { job, .. } if *job == probe)), hang_ms + 5000);
                 if !back {
                     abandoned = true;
                 }
-            } else {
+            } else if ret != Some(Ret::Accepted) {
+                problems.push(Problem {
+                    ty: "contract",
+                    sig: json!({"site": "pool", "kind": "no-respawn-after-all-workers-retired"}),
+                    desc: format!("stress {}: after every worker thread had ended a new dispatch was not accepted: returned {:?}, counter read at the limit test {:?}", cfg.name, ret, load_b),
+                });
+            }
+            if back && ret == Some(Ret::Accepted) {
                 if load_b != Some(0) {
                     problems.push(Problem {
                         ty: "contract",
@@ -304,7 +304,7 @@ fn run_cfg(cfg: &Cfg, hang_ms: u64) -> (Vec<Problem>, Value) {
                     });
                 }
                 sess.wait_until(hang_ms, |g| g.ended[probe]);
-                sess.wait_until(8000, |g| g.roles.iter().filter(|r| r.kind == Kind::W).all(|r| r.exited));
+                sess.wait_until(8000, ctl::all_workers_retired);
             }
             if !abandoned {
                 let _ = h.join();
